@@ -19,6 +19,7 @@ def pipeline(*ids):
 
 TRACE_CFG = """SPECIFICATION Spec
 CONSTANT PROPS = {%s}
+CONSTANT CONFORM = %s
 POSTCONDITION Accepted
 CHECK_DEADLOCK FALSE
 """
@@ -51,7 +52,7 @@ def edit_random(run, prop, nhist, steps, maxtips, tag="rnd"):
     """Direction B: seeded random histories on the real code, validated by TraceEdit."""
     shards = min(vk.NCPU, max(1, nhist // 20))
     per = math.ceil(nhist / shards)
-    cfg = TRACE_CFG % ('"%s"' % prop)
+    cfg = TRACE_CFG % ('"%s"' % prop, "TRUE")
 
     def job(i):
         def f():
@@ -105,7 +106,19 @@ def edit_replay(run, path):
     """Re-runs the recorded history (same seed, same history index) on the current /repo and validates it."""
     with open(path) as f:
         hdr = json.loads(f.readline())
+    run.replay_of = path
     case = hdr.get("case", "")
+    if "model_case" in hdr:
+        cp = os.path.join(run.work, "cases-replay.ndjson")
+        with open(cp, "w") as f:
+            f.write(json.dumps(hdr["model_case"]) + "\n")
+        p = os.path.join(run.work, "replay.ndjson")
+        vk.run_driver(run, ["replay-edit", "--prop", run.prop, "--cases", cp, "--out", p], p)
+        r = vk.validate_trace(run, p, "TraceEdit.tla", TRACE_CFG % ('"%s"' % run.prop, "TRUE"))
+        collect(run, [r])
+        run.traces = 1
+        run.samples += vk.sample_events(r["path"], 2)
+        return vk.finish(run, rule="replay of one TLC-emitted model case on the current /repo")
     # case label: <prop>-s<seed>-h<k>
     try:
         parts = case.split("-")
@@ -119,7 +132,7 @@ def edit_replay(run, path):
     p = os.path.join(run.work, "replay.ndjson")
     vk.run_driver(run, ["edit", "--prop", run.prop, "--seed", str(seed), "--from", str(k), "--to", str(k + 1),
                         "--steps", str(steps), "--maxtips", str(maxtips), "--out", p], p)
-    r = vk.validate_trace(run, p, "TraceEdit.tla", TRACE_CFG % ('"%s"' % run.prop))
+    r = vk.validate_trace(run, p, "TraceEdit.tla", TRACE_CFG % ('"%s"' % run.prop, "TRUE"))
     collect(run, [r])
     run.traces = 1
     run.samples += vk.sample_events(r["path"], 2)
